@@ -34,7 +34,8 @@ int vrt_self (void);
 void vrt_fail (const char *prop, const char *fmt, ...) __attribute__ ((format (printf, 2, 3), noreturn));
 void vrt_note (const char *fmt, ...) __attribute__ ((format (printf, 1, 2)));  /* goes to the trace */
 void vrt_point (const char *what);    /* an extra scheduling point in scenario code */
-int64_t vrt_now_ns (void);            /* virtual CLOCK_REALTIME, ns */
+int64_t vrt_now_ns (void);
+void vrt_clock_forward_to (int64_t ns);   /* scenario-directed clock jump (forward only); fires due futex timeouts */            /* virtual CLOCK_REALTIME, ns */
 struct timespec vrt_abs (int64_t ns_from_start); /* absolute deadline = start + offset */
 void vrt_register (const void *p, size_t n, const char *name); /* names a region in traces */
 uint32_t vrt_rand (uint32_t n);       /* scenario-level random choice drawn from the run's PRNG */
